@@ -61,11 +61,12 @@ PROPS['C09'] = A(level='model_checking', harnesses=RX_H, budget=A(quick=170, tho
     assumptions=TRUST)
 PROPS['C16']['harnesses'] = PROPS['C16']['harnesses'] + RX_H
 
+_MT_H = [A(src='harness/c05_slab_mt.cpp', san='asan', sched=True), A(src='harness/c05_slab_mt.cpp', san='tsan', sched=True)]
 SLAB_H = [A(src='harness/c01_slab.cpp', san='asan', opt='-O2', tag='-p%d' % i, flags=['-DSLAB_PART=%d' % i]) for i in range(4)]
 SLAB_B = A(quick='policy configs: tiny (page 256, slab=sb 4 KiB, 8 classes; aligned map / one-argument map with bases at 3 offsets / no poison hooks), split (slab 2 KiB < sb 4 KiB, aligned and one-argument map), odd (slab 7 pages, sb 8 pages, largest class 2 pages), defaults (4 KiB/256 KiB/13 classes, both map flavours). (a) alloc/free/deallocate/realloc/realloc(null) histories to FIXPOINT (any length) over small size alphabets with <=2..5 live blocks; (b) all histories to depth 5 (4 odd, 3 defaults) over the full 5-7 size alphabets with <=3..4 live blocks; (c) size sweep: every request 0..largest class+2 pages and every size within +-2 of a page multiple up to 3 superblocks+1 page from 3 base states, every realloc pair over the class/page boundaries',
            thorough='same with more fixpoint alphabets at 3 live blocks, depth 7 (6 odd, 5 defaults), sweeps from all base states')
 for pid, extra in (('C01', ''), ('C02', ''), ('C03', '')):
-    PROPS[pid] = A(level='model_checking', harnesses=SLAB_H, budget=A(quick=170, thorough=1700), bounds=SLAB_B, assumptions=TRUST + ['ASan manual poisoning is conservative at 8-byte granularity'])
+    PROPS[pid] = A(level='model_checking', harnesses=SLAB_H + (_MT_H if pid == 'C01' else []), budget=A(quick=170, thorough=1700), bounds=(A(quick=SLAB_B['quick'] + '; (d) interleaved histories: 4 two/three-thread scripts on one slab under the serialising scheduler, all schedules with <=2 preemptions (H11: 3), ASan+oracles and ThreadSanitizer', thorough=SLAB_B['thorough'] + '; scheduler scripts with <=3 (H11: 4) preemptions') if pid == 'C01' else SLAB_B), assumptions=TRUST + ['ASan manual poisoning is conservative at 8-byte granularity'])
 PROPS['C04'] = A(level='fault_enumeration', harnesses=SLAB_H, budget=A(quick=170, thorough=1700),
     bounds=A(quick='the C01 explorations with one more environment answer: at every op that can call Policy::map, the call is failed (<=1 failure per history), either the first or the second map() call of the operation; every reachable state within the bounds is a failure point; plus the same with the policy freeing a live block of the pool from inside the failing map() call (what a concurrent free during the unlocked map() amounts to)', thorough='<=2 failures per history'),
     rule='cases = (history, failed map call) pairs enumerated by BFS over alloc/realloc ops with a failing-map variant; distinct = distinct canonical states reached; non-trivial = the failing variant actually reached map()',
@@ -104,13 +105,13 @@ PROPS['C20'] = A(level='exploration', engine='enumerate', harnesses=[A(src='harn
 def SCHED(src, **kw):
     return [A(src=src, san='asan', sched=True, **kw), A(src=src, san='tsan', sched=True, **kw)]
 PROPS['C12'] = A(level='model_checking', engine='sched', harnesses=SCHED('harness/c12_spin.cpp') + [A(src='harness/c12_guards.cpp', san='asan')], budget=A(quick=150, thorough=1500),
-    bounds=A(quick='ticket_spinlock and simple_spinlock, every __atomic builtin and spin hint a scheduling point: 2 threads x 1 round: ALL interleavings; 2 threads x 2 rounds: ALL interleavings (simple) / preemption bound 5 (ticket); 3 threads x 1 round: bound 2; every __atomic builtin the header could use (load, store, exchange, fetch_*, compare_exchange, test_and_set, clear) is hooked; each explored twice (ASan+vector clocks, and ThreadSanitizer). Guards: unique_lock/shared_lock/QS lock_guard operation histories to fixpoint',
+    bounds=A(quick='ticket_spinlock and simple_spinlock, every __atomic builtin and spin hint a scheduling point: 2 threads x 1 round: ALL interleavings; 2 threads x 2 rounds: ALL interleavings (simple) / preemption bound 5 (ticket); the ticket lock also started at the wrap-around of its 32-bit counters (2x1 all, 2x2 bound 3); 3 threads x 1 round: bound 2; every __atomic builtin the header could use (load, store, exchange, fetch_*, compare_exchange, test_and_set, clear) is hooked; each explored twice (ASan+vector clocks, and ThreadSanitizer). Guards: unique_lock/shared_lock/QS lock_guard operation histories to fixpoint',
              thorough='ticket 2x2 bound 7, 3x1 bound 3, 4x1 and 3x2 bound 2'),
     technique='stateless model checking: exhaustive preemption-bounded enumeration of thread schedules of the real implementation under a serialising scheduler (CHESS style), vector-clock happens-before oracle, ThreadSanitizer over the same schedules; explicit-state BFS for the guards',
     assumptions=TRUST + ['interleaving (sequentially consistent) semantics; memory-order defects are caught as missing happens-before edges (vector clocks, TSan), not by enumerating weak-memory executions'])
 
 PROPS['C05'] = A(level='model_checking', engine='sched', harnesses=SCHED('harness/c05_slab_mt.cpp') + SLAB_H[:2], budget=A(quick=170, thorough=1700),
-    bounds=A(quick='slab_pool<tiny policy, scheduler mutex>: 8 thread scripts (2-4 threads, 1-4 pool calls each, all on shared size classes: both threads find a class empty; race for the last free object while a third frees into the slab; cross-thread free through a mailbox; realloc across classes; large frames vs. slab creation; unaligned map; full slab refill), every lock/unlock a scheduling point, all schedules with <=3 preemptions; each script explored with ASan+oracles and again under ThreadSanitizer; 3 scripts with the pool built over frg::ticket_spinlock / frg::simple_spinlock (every atomic builtin of the lock a scheduling point, <=1 preemption); sequential part for the clause that the policy may itself use the pool: BFS over histories in which the policy frees a live block through the pool from inside map(), with map succeeding or failing (3 configurations, depth 5 / fixpoint)',
+    bounds=A(quick='slab_pool<tiny policy, scheduler mutex>: 8 thread scripts (2-4 threads, 1-4 pool calls each, all on shared size classes: both threads find a class empty; race for the last free object while a third frees into the slab; cross-thread free through a mailbox; realloc across classes; large frames vs. slab creation; unaligned map; full slab refill), every lock/unlock a scheduling point, all schedules with <=3 preemptions; each script explored with ASan+oracles and again under ThreadSanitizer; 3 scripts with the pool built over frg::ticket_spinlock (<=1 preemption) / frg::simple_spinlock (<=4 preemptions), every atomic builtin of the lock a scheduling point; sequential part for the clause that the policy may itself use the pool: BFS over histories in which the policy frees a live block through the pool from inside map(), with map succeeding or failing (3 configurations, depth 5 / fixpoint)',
              thorough='<=4 preemptions; H1 with all interleavings; three allocators; two classes'),
     technique='stateless model checking: exhaustive preemption-bounded enumeration of thread schedules of the real slab_pool under a serialising scheduler, oracles on every schedule, ThreadSanitizer over the same schedules',
     assumptions=TRUST + ['plain memory accesses are not scheduling points; data-race freedom is checked separately by ThreadSanitizer on every explored schedule', 'interleaving semantics'])
